@@ -120,7 +120,7 @@ type Grant struct {
 
 // Checks if Grant is valid
 func (g *Grant) isValid() bool {
-	return g.Permission.isValid() && g.Grantee.isValid()
+	return g.Permission.isValid() && g.Grantee != nil && g.Grantee.isValid()
 }
 
 type Grt struct {
